@@ -166,6 +166,51 @@ def utf16_sep(data):
 
 _add("utf16_nul_separated_runs", _WT2, utf16_sep, funcs=["multidecoder.decoders.codec.find_utf16"])
 
+# run-length boundary: exactly seven characters are a run, six are not (one free character at either end)
+_WT3 = Tmpl(b"\x01", 1, b"\0b\0c\0d\0e\0f\0g\0", 1, 1)
+
+
+def utf16_seven(data):
+    a, t0, t1 = data[1], data[15], data[16]
+    va = utf16_class(a)
+    vt = band(utf16_class(t0), t1 == 0)
+    mid = [98, 99, 100, 101, 102, 103]
+    if band(va, vt):
+        cps, s, e = [a] + mid + [t0], 1, 17
+    elif va:
+        cps, s, e = [a] + mid, 1, 15
+    elif vt:
+        cps, s, e = mid + [t0], 3, 17
+    else:
+        r, _ = none(find_utf16, data, "find_utf16")
+        return r, False
+    want = []
+    for cp in cps:
+        want += utf8_encode(cp)
+    return exactly(find_utf16, data, s, e, "", "codec.uft-16", want, "find_utf16")
+
+
+_add("utf16_run_of_seven_boundary", _WT3, utf16_seven, funcs=["multidecoder.decoders.codec.find_utf16"])
+
+# a single NUL character (two zero bytes) joins two runs only if the second has seven characters
+_WT4 = Tmpl(b"A\0b\0c\0d\0e\0f\0g\0", b"\0\0", b"h\0i\0j\0k\0l\0m\0", 1, 1)
+
+
+def utf16_one_nul(data):
+    n, hi = data[28], data[29]
+    first = [65, 98, 99, 100, 101, 102, 103]
+    if band(utf16_class(n), hi == 0):
+        cps, e = first + [0, 104, 105, 106, 107, 108, 109, n], 30
+    else:
+        cps, e = first, 14
+    want = []
+    for cp in cps:
+        want += utf8_encode(cp)
+    return exactly(find_utf16, data, 0, e, "", "codec.uft-16", want, "find_utf16")
+
+
+_add("utf16_single_nul_joins_runs", _WT4, utf16_one_nul, funcs=["multidecoder.decoders.codec.find_utf16"])
+
 # 55000..55999 straddles the start of the surrogate block 55296..57343 (unencodable: must not be reported)
 _t5s, _b5s = _chr(b"Chr(5", 4, 0)
 
